@@ -474,6 +474,15 @@ func fmtBinary(run *ev.Run, prop string) (int64, int64) {
 		"#    leading spaces in a comment\n#\tleading tab\n# trailing spaces    \nA := \"x\"\n\n#     Doc indented\ntask t() {\n        echo deeper\n    echo normal\n}\n# last    comment",
 		"# one\n\n# two\nA := \"1\"\n# three\n\n# four    is a docstring\ntask t() {\n    echo {{.A}}    {{.A}}\n}\n\n# five\n",
 	)
+	// files just under 64 KiB and 1 MiB that grow past that size when formatted
+	for _, limit := range []int{64 << 10, 1 << 20} {
+		var sb strings.Builder
+		for i := 0; sb.Len()+26 < limit; i++ {
+			n := string([]byte{byte('a' + i/17576%26), byte('a' + i/676%26), byte('a' + i/26%26), byte('a' + i%26)})
+			sb.WriteString("task " + n + "() { echo " + n + " }\n")
+		}
+		base = append(base, sb.String())
+	}
 	var texts []string
 	seen := map[string]bool{}
 	for _, b := range base {
@@ -530,6 +539,14 @@ func fmtBinaryOne(root, text, prop string) (v *lang.Verdict, after string, ran i
 	switch prop {
 	case "C07":
 		v = lang.CheckC07(r)
+		if v == nil {
+			// it loaded before (or --fmt would have refused): it must still load
+			o2 := bin.Run(proj, filepath.Join(root, "home"), nil, "--vars")
+			ran++
+			if o2.Exit != 0 || o2.Died() {
+				v = &lang.Verdict{Class: "fmt-output-does-not-load", What: fmt.Sprintf("after --fmt, `spok --vars` exits %d: %s", o2.Exit, firstLines(o2.Stderr, 2))}
+			}
+		}
 	case "C15":
 		v = lang.CheckC15(r)
 	case "C11":
